@@ -7,6 +7,7 @@ import Driver.CacheFile
 import Driver.Sflow
 import Driver.Mirror
 import Driver.Options
+import Driver.Pipeline
 open Driver Vflow
 
 /-- driver state: one model template cache per protocol, reset by `new` -/
@@ -40,6 +41,7 @@ def handle (st : DState) (line : String) : DState × String :=
   | ["elem", p, i] => (st, elemLine p i)
   | ["sflow", f, d] => (st, sflowLine f d)
   | ["dissect", p, h] => (st, dissectLine p h)
+  | ["pipeline", proto, workers, _setup, data] => (st, pipelineLine proto workers data)
   | ["options", env, file, args] => (st, optionsLine env file args)
   | ["mirror", proto, src, dst, port, max, payload] => (st, mirrorLine proto src dst port max payload)
   | _ => (st, "bad-op")
